@@ -313,6 +313,10 @@ def catalogue(tier):
         # frameshift between the exons (the cached codons do not tile the spliced CDS), on the chromosome and on a chunk
         out.append(dict(kind="cds_direct", blocks=[[0, 7], [10, 20]], strand=s, frames=[0, 0]))
         out.append(dict(kind="cds_direct", blocks=[[0, 7], [10, 20]], strand=s, frames=[0, 0], parent=(0, 22)))
+        # a CDS of exactly ONE codon (whole, and as what a start frame / a chunk leaves of a longer one)
+        out.append(dict(kind="cds_direct", blocks=[[2, 5]], strand=s, frames=[0]))
+        out.append(dict(kind="cds_direct", blocks=[[2, 7]], strand=s, frames=[2]))
+        out.append(dict(kind="cds_direct", blocks=[[2, 8]], strand=s, frames=[0], parent=(2, 6) if s == "+" else (4, 9)))
         # built without a parent (and adopted later by a gene / feature collection that has one: ENV:adopt)
         out.append(dict(kind="tx", exons=[[0, 5], [7, 14]], strand=s, cds=[1, 11], f0=0, parent="none"))
         out.append(dict(kind="feat", blocks=[[1, 4], [6, 9]], strand=s, parent="none"))
